@@ -109,7 +109,7 @@ def run_batch(dst: str, harnesses: List[str], jobs: int, mem_class: bool, timeou
     cmd = ["cargo", "kani"] + KANI_FLAGS
     for h in harnesses:
         cmd += ["--harness", h]
-    cmd += ["-j", str(jobs), "--output-format", "terse", "--harness-timeout", f"{harness_timeout}s"]
+    cmd += ["--exact", "-j", str(jobs), "--output-format", "terse", "--harness-timeout", f"{harness_timeout}s"]
     if extra:
         cmd += extra
     if mem_class:
@@ -140,6 +140,7 @@ def run_batch(dst: str, harnesses: List[str], jobs: int, mem_class: bool, timeou
             raise Undecided("the annotated copy does not compile under Kani:\n" + "\n".join(
                 l for l in out.split("\n") if not l.startswith("warning"))[-6000:])
     res = parse_terse(out)
+    harnesses = [short(h) for h in harnesses]
     for h in harnesses:
         if h not in res:
             res[h] = HResult(h, status="timeout" if timed_out else "missing")
